@@ -2140,8 +2140,14 @@ double BW_MidiSequencer::Tick(double s, double granularity)
     }
 
     if(antiFreezeCounter <= 0)
+    {
         m_currentPosition.wait += 1.0; /* Add extra 1 second when over 10000 events
                                           with zero delay are been detected */
+        // Time that could not be worked off is dropped: a huge or non-finite time span
+        // must not make every later call run into this limit again
+        if(!(m_currentPosition.wait >= 0.0))
+            m_currentPosition.wait = 0.0;
+    }
 
     if(m_currentPosition.wait < 0.0) // Avoid negative delay value!
         return 0.0;
